@@ -40,6 +40,8 @@ impl Compress {
             bail!(DSError::InvalidName("Empty name"));
         }
         loop {
+            #[cfg(feature = "verif")]
+            verif_step(VERIF_STEP_COMPRESSED_NAME);
             if offset >= barrier_offset {
                 if offset >= packet_len {
                     bail!(DSError::InvalidName("Truncated name"));
